@@ -12,7 +12,13 @@ import tempfile
 
 import z3
 
-from .engine import Contract, Driver, VInt, VBool, VBytes, VStr, VNone, VTuple, VList, Unsupported
+from .engine import Contract, Driver, VInt, VBool, VBytes, VStr, VNone, VTuple, VList, Unsupported, bounded_check
+
+EVAL_TIMEOUT_MS = 10000
+
+
+class _NotEvaluated(Exception):
+    pass
 
 TEMPLATES_BYTES = [
     'a[i:j]', 'a[i:]', 'a[:j]', 'a[-2:]', 'a[:-1]', 'a[i:i + 2]', 'a[j:i]', 'a + b', 'a == b', 'a != b', 'b in a', 'b not in a',
@@ -58,11 +64,15 @@ def _concretise(v, pc=()):
     if not (z3.is_int_value(t) or z3.is_true(t) or z3.is_false(t) or z3.is_string_value(t)):
         # a ground term that simplify() leaves unevaluated (e.g. IndexOf over unit sequences): ask a solver for its value
         sv = z3.Solver()
+        sv.set('timeout', EVAL_TIMEOUT_MS)
         k = z3.FreshConst(t.sort(), 'val')
         sv.add(k == t)
         sv.add(*pc)
-        if sv.check() == z3.sat:
+        r = bounded_check(sv, EVAL_TIMEOUT_MS)
+        if r == z3.sat:
             t = z3.simplify(sv.model().eval(k, model_completion=True))
+        elif r == z3.unknown:
+            raise _NotEvaluated()
     if isinstance(v, VInt):
         return t.as_long() if z3.is_int_value(t) else ('?', str(t))
     if isinstance(v, VBool):
@@ -72,10 +82,14 @@ def _concretise(v, pc=()):
     if isinstance(v, VBytes):
         from vlib.modelutil import as_bytes
         s = z3.Solver()
+        s.set('timeout', EVAL_TIMEOUT_MS)
         k = z3.FreshConst(t.sort(), 'val')
         s.add(k == t)          # ground term: its value is whatever the solver's theory says it is
         s.add(*pc)
-        if s.check() != z3.sat:
+        r = bounded_check(s, EVAL_TIMEOUT_MS)
+        if r == z3.unknown:
+            raise _NotEvaluated()
+        if r != z3.sat:
             return ('?', str(t))
         r = as_bytes(s.model(), k)
         return r if r is not None else ('?', str(t))
@@ -110,7 +124,12 @@ def run(n_per_template=12, seed=0):
                         continue
                     got = c.result
                     if got[0] == 'ret':
-                        got = ('ret', _concretise(got[1], getattr(c, 'pc', ())))
+                        try:
+                            got = ('ret', _concretise(got[1], getattr(c, 'pc', ())))
+                        except _NotEvaluated:
+                            # the solver did not evaluate the (relational) model within its budget: nothing compared, not a disagreement
+                            unsupported += 1
+                            continue
                     checked += 1
                     w = want
                     if w[0] == 'ret' and isinstance(w[1], bool) and got[0] == 'ret' and isinstance(got[1], bool):
